@@ -423,13 +423,16 @@ def build(ctx: RunCtx) -> Prop:
     return Prop(
         pid=PID, title="ConcurrentInvocation.result = the retry recurrence F (recursive, with a decreasing measure); DistributedInvocation.run = one unfolding "
                        "of F per attempt; closed forms of F; task body starts only after the activation's own RUNNING request",
-        level="proof", technique="contract-based deductive verification against a recursive spec function (AST->z3 VCs, body as an oracle per execution) + bounded sync/distributed comparison on the real runner",
+        level="proof", technique="contract-based deductive verification against a recursive spec function (AST->z3 VCs, body as an oracle per execution) and of the group construction functions against one specification of the j-th call + bounded sync/distributed comparison on the real runner",
         registry=reg, verify=[conc, dist, G["set_invocation_retry"], G["set_invocation_result"], G["set_invocation_exception"]],
         lemmas=[closed_forms], bounded=[same_outcome_both_ways, group_programs_both_ways],
         assumptions=GLUE_ASSUMPTIONS + ["the task body is an oracle outcome(a) per execution a: returns a payload, raises a retriable or another exception",
                                         "payload identity through storage/serialisation is C05/C15, not part of this proof",
                                         "the same retriable_exceptions tuple is used by both modes (Task.retriable_exceptions, one cached property)"],
         trusted_base=GLUE_TRUSTED + ["z3 recursive function definitions (RecFunction)"],
-        not_decided="nested calls, parallelized groups and direct-task wrappers are covered only by the bounded comparison.",
+        not_decided="nested calls and direct-task wrappers are covered only by the bounded comparison; of parallelized groups the construction of the calls "
+                    "(prepare_arguments, distribute_batch_calls) is proved, the collection of their results is bounded only.",
         min_obligations=30,
+        # the calls a group is made of: sync mode / unbatched path (prepare_arguments) and batch path (distribute_batch_calls) against one specification
+        parts=[("contracts.c19_groups", ["pynenc.task:prepare_arguments", "pynenc.task:distribute_batch_calls"])],
     )
